@@ -163,7 +163,7 @@ def run_correspondence(ck, known):
     runs.append(("gen", outp))
 
     total, verd_all, by_id, hist, sites, rejs = 0, {}, {}, {}, {}, {}
-    shaped_sites, shaped_cls, whole_cls, re_sites = {}, {}, {}, set()
+    shaped_sites, shaped_cls, whole_cls, re_sites, grid = {}, {}, {}, set(), {}
     distinct = set()
     nbad_base = 0
     tq_pairs = []
@@ -217,6 +217,8 @@ def run_correspondence(ck, known):
                 if c.get("shaped"):
                     shaped_sites[c["site"]] = shaped_sites.get(c["site"], 0) + 1
                     shaped_cls[c["class"]] = shaped_cls.get(c["class"], 0) + 1
+                    if c["class"].startswith("grid:"):
+                        grid.setdefault(c["site"], set()).add((c["class"], tuple(c["shape"]), c["val"][:2 * c["shape"][0]]))
                 else:
                     whole_cls[c["class"]] = whole_cls.get(c["class"], 0) + 1
             v = bytes.fromhex(c["val"])
@@ -243,7 +245,9 @@ def run_correspondence(ck, known):
                   "mismatching case ids: %s" % mism[:10])
     if viol:
         # structural breaks first, then shortest value
-        worst = min((by_id[i] for i in viol), key=lambda c: (0 if verd_all[c["id"]] in (1, 2) else 1, len(c["val"])))
+        # a statement that does not lex first (undeniable), then a changed skeleton (a shaped case first: its baseline has the same regex
+        # structure), then a literal with other bytes; shortest value
+        worst = min((by_id[i] for i in viol), key=lambda c: ({1: 0, 2: 1}.get(verd_all[c["id"]], 2), 0 if c.get("shaped") else 1, len(c["val"])))
         ck.violation({"property": "C10", "kind": CODE[verd_all[worst["id"]]], "case": describe(worst),
                       "replay": "harness sqlinject --cases <file with {site,val} of this case>"})
     elif mism:
@@ -262,11 +266,14 @@ def run_correspondence(ck, known):
                   not empty, "no (or < 15) cases for: %s" % empty)
     # round 4: hostile strings INSIDE a regular expression of a shape a fast path could special-case (anchored alternation of literals,
     # literal, prefix / suffix, case-insensitive flag, empty alternative, quoted metacharacters), compared with the same shape around the marker
-    thin = sorted(st for st in re_sites if shaped_sites.get(st, 0) < int(ck.n(3, 40)))
+    # the grid (every regex-carrying position x 13 core shapes, a quote at the marked place): at least 11 of the 13 must have been judged
+    # against the shaped baseline at every position (a literal under (?i) goes through doLike at the line filters; `| regexp` has its own grammar)
+    thin = sorted(st for st in re_sites if shaped_sites.get(st, 0) < int(ck.n(3, 40)) or len(grid.get(st, ())) < 11)
     ck.obligation("every regex-carrying position (%d) has hostile strings inside shaped regular expressions judged against the same shape around the marker: %d cases, per shape class %s"
                   % (len(re_sites), sum(shaped_sites.values()), shaped_cls), not thin and len(shaped_cls) >= 7 and len(re_sites) >= 30,
                   "too few shaped cases at: %s" % thin)
-    ck.extra["shaped_regex_cases"] = {"per_site_judged_against_the_shaped_baseline": shaped_sites, "per_shape_class": shaped_cls,
+    ck.extra["shaped_regex_cases"] = {"per_site_judged_against_the_shaped_baseline": shaped_sites,
+                                      "grid_shapes_judged_against_the_shaped_baseline_per_site_(of_13)": {k: len(v) for k, v in grid.items()}, "per_shape_class": shaped_cls,
                                       "shaped_value_judged_against_the_plain_marker_(structure_of_the_expression_differs_from_the_marker's,_or_a_literal_handled_by_doLike)": whole_cls}
     ck.extra["input_distribution"] = {"classes": hist, "sites": sites, "rejected_by_parser_or_planner": rejs,
                                       "verdict_codes": CODE, "cases_per_property_string_class": per_class}
